@@ -27,6 +27,12 @@
 //! item:   input = (-4 pcfg task qpcfg maxlen input target (seed-hi seed-lo) file marks): the closure `train_pipeline` returns,
 //!         applied to one (TrainData, TextDataInfo); output = (0) a constructor panics | (1 input target tinput rep) | (2 rep) | (-777)
 //! In these two lines a preprocessing stage (14 0) / (14 1) is JsonDecode(Input) / JsonDecode(Target).
+//! xitem:  input = (-5 pcfg task qpcfg maxlen input target (seed-hi seed-lo) file marks stages qstages): the item line with two
+//!         tables of stages given with their real parameters (SpellingCorruption in all modes with the content of its files,
+//!         JsonDecode, ChatDecode; TokenMasking): (14 k) in pcfg / (6 k) in qpcfg refer to entry k (see "topic N" below)
+//! xbytes: input = (-6 <the 22 fields of bytes> stages qstages): the byte loader line with the same tables
+//! mask:   input = (-7 qstage kind ids (seed-hi seed-lo)): the TokenMasking function alone on a synthetic item (kind = variant of
+//!         TrainTaskInput) — the known answers for rand_distr::Geometric; output = (0) | (1 ids rep) | (-777)
 use std::collections::hash_map::DefaultHasher;
 use std::collections::HashMap;
 use std::hash::{Hash, Hasher};
@@ -375,6 +381,8 @@ enum MCfg {
     /// SpellingCorruption(part, PW[pw], allow_full_delete, Artificial(PC[pc], 2.0, None)): (target?, full_delete, pw, pc);
     /// only in the item / bytes lines; on the wire (14 id), id = 2 + part + 2 fd + 4 pw + 32 pc (Pipeline_Spell.v)
     Spell(bool, bool, u8, u8),
+    /// a reference to entry k of the stage table of the lines -5 / -6 (topic N); on the wire (14 k)
+    Stage(usize),
 }
 
 /// the probability menus of Pipeline_Spell.v (the same binary64 values)
@@ -487,6 +495,7 @@ impl MCfg {
             MCfg::Spell(p, fd, pw, pc) => {
                 t(14, vec![Val::u(2 + *p as usize + 2 * (*fd as usize) + 4 * (*pw as usize) + 32 * (*pc as usize))])
             }
+            MCfg::Stage(k) => t(14, vec![Val::u(*k)]),
         }
     }
 
@@ -580,6 +589,7 @@ impl MCfg {
                 *fd,
                 SpellingCorruptionMode::Artificial(SPELL_PC[*pc as usize], 2.0, None),
             ),
+            MCfg::Stage(_) => unreachable!("stage references are resolved by x_mcfg_to_real"),
         }
     }
 
@@ -614,6 +624,7 @@ impl MCfg {
             MCfg::Suffix(..) => "suffix",
             MCfg::JsonDecode(..) => "jsondecode",
             MCfg::Spell(..) => "spell",
+            MCfg::Stage(..) => "stage",
         };
         if !out.contains(&n) {
             out.push(n);
@@ -1546,6 +1557,8 @@ enum QCfg {
     OnMark(String, String, Vec<QCfg>),
     SwitchOnMark(String, Vec<String>, Vec<QCfg>),
     Clip,
+    /// a reference to entry k of the TokenMasking table of the lines -5 / -6 (topic N); on the wire (6 k)
+    Mask(usize),
 }
 
 impl QCfg {
@@ -1558,6 +1571,7 @@ impl QCfg {
             QCfg::OnMark(k, v, l) => Val::L(vec![Val::I(3), Val::str(k), Val::str(v), sub(l)]),
             QCfg::SwitchOnMark(k, vs, l) => Val::L(vec![Val::I(4), Val::str(k), strs_val(vs), sub(l)]),
             QCfg::Clip => Val::L(vec![Val::I(5)]),
+            QCfg::Mask(k) => Val::L(vec![Val::I(6), Val::u(*k)]),
         }
     }
     fn from_val(v: &Val, depth: usize) -> Option<QCfg> {
@@ -1604,6 +1618,7 @@ impl QCfg {
             QCfg::OnMark(k, v, l) => Q::OnMark(k.clone(), v.clone(), sub(l)),
             QCfg::SwitchOnMark(k, vs, l) => Q::SwitchOnMark(k.clone(), vs.clone(), sub(l)),
             QCfg::Clip => Q::ClipLength,
+            QCfg::Mask(_) => unreachable!("mask references are resolved by x_qcfg_to_real"),
         }
     }
     fn neg_switch(&self) -> bool {
@@ -1633,6 +1648,7 @@ impl QCfg {
                 "q-switchonmark"
             }
             QCfg::Clip => "q-clip",
+            QCfg::Mask(..) => "q-mask",
         };
         if !out.contains(&n) {
             out.push(n);
@@ -2459,6 +2475,1171 @@ impl C08 {
     }
 }
 
+// ---- topic N: stage tables -------------------------------------------------------------------
+// Lines -5 (item), -6 (byte loader), -7 (mask script): the stages that Pipeline_Model / Pipeline_Tasks leave to the
+// opaque constructor are given with their real parameters in two tables (coq/theories/Pipeline_Stages.v):
+//   stages  = (stage ..), stage = (0 part) JsonDecode | (1 part prob fd smode) SpellingCorruption | (2 part (start? ((role tpl) ..) end?)) ChatDecode
+//             smode = (0 pc temp chars?) | (1 missp) | (2 art pc temp chars? missp); chars? = () | (((key freq weight) ..));
+//             weight = (freq as f64).powf(1.0 / temp) (libm: data for the model); missp = ((word (misspelling ..)) ..)
+//   qstages = (qstage ..), qstage = (tokenizer p min num_p mask_token) TokenMasking
+// A preprocessing node (14 k) / postprocessing node (6 k) refers to entry k. The harness writes the character dictionary and the
+// misspellings file of every spelling stage and hands the paths to the real constructor.
+
+type CharItems = Vec<(String, usize)>;
+type Missp = Vec<(String, Vec<String>)>;
+
+#[derive(Clone, Debug, PartialEq)]
+enum SModeSpec {
+    Art(f64, f64, Option<CharItems>),
+    Real(Missp),
+    Mixed(f64, f64, f64, Option<CharItems>, Missp),
+}
+
+#[derive(Clone, Debug, PartialEq)]
+enum StageSpec {
+    Json(bool),
+    Spell(bool, f64, bool, SModeSpec),
+    Chat(bool, Option<String>, Vec<(String, String)>, Option<String>),
+}
+
+fn chars_val(c: &Option<CharItems>, temp: f64) -> Val {
+    match c {
+        None => Val::L(vec![]),
+        Some(items) => Val::L(vec![Val::L(
+            items.iter().map(|(k, f)| Val::L(vec![Val::str(k), Val::u(*f), f64_val((*f as f64).powf(1.0 / temp))])).collect(),
+        )]),
+    }
+}
+fn missp_val(m: &Missp) -> Val {
+    Val::L(m.iter().map(|(w, rs)| Val::L(vec![Val::str(w), strs_val(rs)])).collect())
+}
+fn val_chars(v: &Val) -> Option<Option<CharItems>> {
+    match v.as_l()? {
+        [] => Some(None),
+        [l] => {
+            let mut items: CharItems = vec![];
+            for it in l.as_l()? {
+                let k = it.nth(0)?.to_string_lossy()?;
+                let f = it.nth(1)?.as_usize()?;
+                // Dictionary::load: `line.trim().split('\t')`, lines split at '\n' (a trailing '\r' removed)
+                if k.is_empty() || k.chars().next()?.is_whitespace() || k.contains(['\t', '\n', '\r']) || f > 1 << 40 {
+                    return None;
+                }
+                if items.iter().any(|x| x.0 == k) {
+                    return None;
+                }
+                items.push((k, f));
+            }
+            // Dictionary::load of an empty file gives freq_sum 0; more than 80 entries: the model side gets slow
+            if items.is_empty() || items.len() > 80 {
+                return None;
+            }
+            Some(Some(items))
+        }
+        _ => None,
+    }
+}
+fn val_missp(v: &Val) -> Option<Missp> {
+    let mut miss: Missp = vec![];
+    for m in v.as_l()? {
+        let w = m.nth(0)?.to_string_lossy()?;
+        let rs = val_strs(m.nth(1)?)?;
+        if rs.len() > 6 || miss.iter().any(|x| x.0 == w) {
+            return None;
+        }
+        miss.push((w, rs));
+    }
+    if miss.len() > 16 {
+        return None;
+    }
+    Some(miss)
+}
+fn val_temp(v: &Val) -> Option<f64> {
+    let t = val_f64(v)?;
+    if t > 0.01 && t < 100.0 {
+        Some(t)
+    } else {
+        None
+    }
+}
+
+impl StageSpec {
+    fn to_val(&self) -> Val {
+        match self {
+            StageSpec::Json(p) => Val::L(vec![Val::I(0), Val::b(*p)]),
+            StageSpec::Spell(p, prob, fd, m) => {
+                let mv = match m {
+                    SModeSpec::Art(pc, temp, chars) => Val::L(vec![Val::I(0), f64_val(*pc), f64_val(*temp), chars_val(chars, *temp)]),
+                    SModeSpec::Real(ms) => Val::L(vec![Val::I(1), missp_val(ms)]),
+                    SModeSpec::Mixed(art, pc, temp, chars, ms) => {
+                        Val::L(vec![Val::I(2), f64_val(*art), f64_val(*pc), f64_val(*temp), chars_val(chars, *temp), missp_val(ms)])
+                    }
+                };
+                Val::L(vec![Val::I(1), Val::b(*p), f64_val(*prob), Val::b(*fd), mv])
+            }
+            StageSpec::Chat(p, start, roles, end) => Val::L(vec![
+                Val::I(2),
+                Val::b(*p),
+                Val::L(vec![
+                    Val::opt(start.as_ref(), |s| Val::str(s)),
+                    Val::L(roles.iter().map(|(k, t)| Val::L(vec![Val::str(k), Val::str(t)])).collect()),
+                    Val::opt(end.as_ref(), |s| Val::str(s)),
+                ]),
+            ]),
+        }
+    }
+    fn from_val(v: &Val) -> Option<StageSpec> {
+        let l = v.as_l()?;
+        let ostr = |v: &Val| -> Option<Option<String>> {
+            match v.as_l()? {
+                [] => Some(None),
+                [s] => Some(Some(s.to_string_lossy()?)),
+                _ => None,
+            }
+        };
+        Some(match (l.first()?.as_i()?, l.len()) {
+            (0, 2) => StageSpec::Json(l[1].as_bool()?),
+            (1, 5) => {
+                let m = l[4].as_l()?;
+                let mode = match (m.first()?.as_i()?, m.len()) {
+                    (0, 4) => SModeSpec::Art(val_f64(&m[1])?, val_temp(&m[2])?, val_chars(&m[3])?),
+                    (1, 2) => SModeSpec::Real(val_missp(&m[1])?),
+                    (2, 6) => SModeSpec::Mixed(val_f64(&m[1])?, val_f64(&m[2])?, val_temp(&m[3])?, val_chars(&m[4])?, val_missp(&m[5])?),
+                    _ => return None,
+                };
+                // the weights on the wire must be what this machine's powf gives (they are data for the model)
+                let s = StageSpec::Spell(l[1].as_bool()?, val_f64(&l[2])?, l[3].as_bool()?, mode);
+                if s.to_val() != *v {
+                    return None;
+                }
+                s
+            }
+            (2, 3) => {
+                let t = l[2].as_l()?;
+                if t.len() != 3 {
+                    return None;
+                }
+                let mut roles: Vec<(String, String)> = vec![];
+                for kv in t[1].as_l()? {
+                    let k = kv.nth(0)?.to_string_lossy()?;
+                    if roles.iter().any(|x| x.0 == k) {
+                        return None; // a HashMap: keys are distinct
+                    }
+                    roles.push((k, kv.nth(1)?.to_string_lossy()?));
+                }
+                if roles.len() > 6 {
+                    return None;
+                }
+                StageSpec::Chat(l[1].as_bool()?, ostr(&t[0])?, roles, ostr(&t[2])?)
+            }
+            _ => return None,
+        })
+    }
+    /// the real configuration; the files of a spelling stage are written to `dir` as st<k>-chars.tsv / st<k>-missp.json
+    fn to_real(&self, dir: &std::path::Path, k: usize) -> Option<PreprocessingFnConfig> {
+        use PreprocessingFnConfig as P;
+        Some(match self {
+            StageSpec::Json(p) => P::JsonDecode(part_of(*p)),
+            StageSpec::Spell(p, prob, fd, m) => {
+                let write_chars = |items: &CharItems| -> Option<std::path::PathBuf> {
+                    let path = dir.join(format!("st{k}-chars.tsv"));
+                    let body: String = items.iter().map(|(k, f)| format!("{k}\t{f}\n")).collect();
+                    std::fs::write(&path, body).ok()?;
+                    Some(path)
+                };
+                let write_missp = |ms: &Missp| -> Option<std::path::PathBuf> {
+                    let path = dir.join(format!("st{k}-missp.json"));
+                    let mut map = serde_json::Map::new();
+                    for (w, rs) in ms {
+                        map.insert(w.clone(), serde_json::Value::Array(rs.iter().map(|r| serde_json::Value::String(r.clone())).collect()));
+                    }
+                    std::fs::write(&path, serde_json::Value::Object(map).to_string()).ok()?;
+                    Some(path)
+                };
+                let mode = match m {
+                    SModeSpec::Art(pc, temp, chars) => {
+                        let cp = match chars {
+                            Some(items) => Some(write_chars(items)?),
+                            None => None,
+                        };
+                        SpellingCorruptionMode::Artificial(*pc, *temp, cp)
+                    }
+                    SModeSpec::Real(ms) => SpellingCorruptionMode::Realistic(write_missp(ms)?),
+                    SModeSpec::Mixed(art, pc, temp, chars, ms) => {
+                        let cp = match chars {
+                            Some(items) => Some(write_chars(items)?),
+                            None => None,
+                        };
+                        SpellingCorruptionMode::Mixed(*art, *pc, *temp, cp, write_missp(ms)?)
+                    }
+                };
+                P::SpellingCorruption(part_of(*p), *prob, *fd, mode)
+            }
+            StageSpec::Chat(p, start, roles, end) => {
+                // `ChatTemplate` lives in a private module: it cannot be named, but it can be inferred and its public fields set
+                let mut c = P::ChatDecode(part_of(*p), Default::default());
+                if let P::ChatDecode(_, ref mut t) = c {
+                    t.start = start.clone();
+                    t.roles = roles.iter().cloned().collect();
+                    t.end = end.clone();
+                }
+                c
+            }
+        })
+    }
+    fn name(&self) -> String {
+        match self {
+            StageSpec::Json(_) => "x-json".into(),
+            StageSpec::Spell(_, _, _, SModeSpec::Art(_, _, None)) => "x-spell-art".into(),
+            StageSpec::Spell(_, _, _, SModeSpec::Art(..)) => "x-spell-art-dict".into(),
+            StageSpec::Spell(_, _, _, SModeSpec::Real(..)) => "x-spell-real".into(),
+            StageSpec::Spell(_, _, _, SModeSpec::Mixed(_, _, _, None, _)) => "x-spell-mixed".into(),
+            StageSpec::Spell(_, _, _, SModeSpec::Mixed(..)) => "x-spell-mixed-dict".into(),
+            StageSpec::Chat(..) => "x-chat".into(),
+        }
+    }
+}
+
+#[derive(Clone, Debug)]
+struct MaskSpec {
+    tok: TokSpec,
+    p: f64,
+    min: usize,
+    num_p: f64,
+    token: String,
+}
+
+impl MaskSpec {
+    fn to_val(&self) -> Val {
+        Val::L(vec![self.tok.to_val(), f64_val(self.p), Val::u(self.min), f64_val(self.num_p), Val::str(&self.token)])
+    }
+    fn from_val(v: &Val) -> Option<MaskSpec> {
+        let l = v.as_l()?;
+        if l.len() != 5 {
+            return None;
+        }
+        let m = MaskSpec { tok: TokSpec::from_val(&l[0])?, p: val_f64(&l[1])?, min: l[2].as_usize()?, num_p: val_f64(&l[3])?, token: l[4].to_string_lossy()? };
+        // the domain of the model (Pipeline_Stages.qstage_dom): no negative / NaN num_tokens_prob; p = 0, invalid, or at least
+        // 1e-9 (below 2^-54 Geometric::new does not return, below about 3e-10 the sampler may call powf)
+        if m.num_p.is_nan() || m.num_p < 0.0 || (m.p > 0.0 && m.p < 1e-9) || m.min > 1 << 40 {
+            return None;
+        }
+        Some(m)
+    }
+    fn to_real(&self) -> PostprocessingFnConfig {
+        PostprocessingFnConfig::TokenMasking(self.tok.to_real(), self.p, self.min, self.num_p, self.token.clone())
+    }
+}
+
+fn x_mcfg_from_val(v: &Val, depth: usize) -> Option<MCfg> {
+    if depth > 9 {
+        return None;
+    }
+    let l = v.as_l()?;
+    let list = |v: &Val| -> Option<Vec<MCfg>> {
+        let l = v.as_l()?;
+        if l.len() > 6 {
+            return None;
+        }
+        l.iter().map(|c| x_mcfg_from_val(c, depth + 1)).collect()
+    };
+    match (l.first()?.as_i()?, l.len()) {
+        (1, 2) => Some(MCfg::Chain(list(&l[1])?)),
+        (5, 3) => match MCfg::from_val(&Val::L(vec![Val::I(5), Val::L(vec![]), l[2].clone()]), 0)? {
+            MCfg::Switch(_, ps) => Some(MCfg::Switch(list(&l[1])?, ps)),
+            _ => None,
+        },
+        (14, 2) => Some(MCfg::Stage(l[1].as_usize()?)),
+        _ => MCfg::from_val(v, depth.min(6)),
+    }
+}
+
+fn x_qcfg_from_val(v: &Val, depth: usize) -> Option<QCfg> {
+    if depth > 5 {
+        return None;
+    }
+    let l = v.as_l()?;
+    let list = |v: &Val| -> Option<Vec<QCfg>> {
+        let l = v.as_l()?;
+        if l.len() > 6 {
+            return None;
+        }
+        l.iter().map(|c| x_qcfg_from_val(c, depth + 1)).collect()
+    };
+    let shell = |tag: i64, rest: &[Val]| -> Option<QCfg> {
+        let mut w = vec![Val::I(tag)];
+        w.extend(rest.iter().cloned());
+        QCfg::from_val(&Val::L(w), depth)
+    };
+    match (l.first()?.as_i()?, l.len()) {
+        (1, 2) => Some(QCfg::Chain(list(&l[1])?)),
+        (2, 3) => match shell(2, &[Val::L(vec![]), l[2].clone()])? {
+            QCfg::Switch(_, ps) => Some(QCfg::Switch(list(&l[1])?, ps)),
+            _ => None,
+        },
+        (3, 4) => match shell(3, &[l[1].clone(), l[2].clone(), Val::L(vec![])])? {
+            QCfg::OnMark(k, v, _) => Some(QCfg::OnMark(k, v, list(&l[3])?)),
+            _ => None,
+        },
+        (4, 4) => match shell(4, &[l[1].clone(), l[2].clone(), Val::L(vec![])])? {
+            QCfg::SwitchOnMark(k, vs, _) => Some(QCfg::SwitchOnMark(k, vs, list(&l[3])?)),
+            _ => None,
+        },
+        (6, 2) => Some(QCfg::Mask(l[1].as_usize()?)),
+        _ => QCfg::from_val(v, depth),
+    }
+}
+
+fn x_mcfg_to_real(c: &MCfg, st: &[PreprocessingFnConfig]) -> PreprocessingFnConfig {
+    use PreprocessingFnConfig as P;
+    match c {
+        MCfg::Chain(l) => P::Chain(l.iter().map(|c| x_mcfg_to_real(c, st)).collect()),
+        MCfg::Switch(l, ps) => P::Switch(l.iter().map(|c| x_mcfg_to_real(c, st)).collect(), ps.clone()),
+        MCfg::Stage(k) => st[*k].clone(),
+        _ => c.to_real(),
+    }
+}
+
+fn x_qcfg_to_real(c: &QCfg, qs: &[PostprocessingFnConfig]) -> PostprocessingFnConfig {
+    use PostprocessingFnConfig as Q;
+    let sub = |l: &Vec<QCfg>| l.iter().map(|c| x_qcfg_to_real(c, qs)).collect::<Vec<_>>();
+    match c {
+        QCfg::Chain(l) => Q::Chain(sub(l)),
+        QCfg::Switch(l, ps) => Q::Switch(sub(l), ps.clone()),
+        QCfg::OnMark(k, v, l) => Q::OnMark(k.clone(), v.clone(), sub(l)),
+        QCfg::SwitchOnMark(k, vs, l) => Q::SwitchOnMark(k.clone(), vs.clone(), sub(l)),
+        QCfg::Mask(k) => qs[*k].clone(),
+        _ => c.to_real(),
+    }
+}
+
+fn mcfg_refs_ok(c: &MCfg, n: usize) -> bool {
+    match c {
+        MCfg::Chain(l) | MCfg::Switch(l, _) => l.iter().all(|c| mcfg_refs_ok(c, n)),
+        MCfg::Stage(k) => *k < n,
+        MCfg::JsonDecode(_) | MCfg::Spell(..) => false, // the packed ids of the older lines are not used here
+        _ => true,
+    }
+}
+fn qcfg_refs_ok(c: &QCfg, n: usize) -> bool {
+    match c {
+        QCfg::Chain(l) | QCfg::Switch(l, _) | QCfg::OnMark(_, _, l) | QCfg::SwitchOnMark(_, _, l) => l.iter().all(|c| qcfg_refs_ok(c, n)),
+        QCfg::Mask(k) => *k < n,
+        _ => true,
+    }
+}
+
+/// a pipeline whose trees may refer to the two stage tables
+#[derive(Clone, Debug)]
+struct XPipe {
+    pipe: PipeSpec,
+    stages: Vec<StageSpec>,
+    qstages: Vec<MaskSpec>,
+}
+
+impl XPipe {
+    fn from_vals(p: &Val, t: &Val, q: &Val, m: &Val, st: &Val, qs: &Val) -> Option<XPipe> {
+        let (per_source, cfgs) = val_pcfg(p, |c| x_mcfg_from_val(c, 0))?;
+        let (q_per_source, qcfgs) = val_pcfg(q, |c| x_qcfg_from_val(c, 0))?;
+        let maxlen = m.as_usize()?;
+        if maxlen > 100_000 || cfgs.iter().any(mcfg_neg_switch) || qcfgs.iter().any(|c| c.neg_switch()) {
+            return None;
+        }
+        let stages: Vec<StageSpec> = st.as_l()?.iter().map(StageSpec::from_val).collect::<Option<_>>()?;
+        let qstages: Vec<MaskSpec> = qs.as_l()?.iter().map(MaskSpec::from_val).collect::<Option<_>>()?;
+        if stages.len() > 4 || qstages.len() > 3 {
+            return None;
+        }
+        if !cfgs.iter().all(|c| mcfg_refs_ok(c, stages.len())) || !qcfgs.iter().all(|c| qcfg_refs_ok(c, qstages.len())) {
+            return None;
+        }
+        Some(XPipe { pipe: PipeSpec { per_source, cfgs, task: TaskSpec::from_val(t)?, q_per_source, qcfgs, maxlen }, stages, qstages })
+    }
+    fn table_vals(&self) -> [Val; 2] {
+        [Val::L(self.stages.iter().map(|s| s.to_val()).collect()), Val::L(self.qstages.iter().map(|s| s.to_val()).collect())]
+    }
+    fn to_real(&self, dir: &std::path::Path) -> Option<TrainPipelineConfig> {
+        std::fs::create_dir_all(dir).ok()?;
+        let st: Vec<PreprocessingFnConfig> = self.stages.iter().enumerate().map(|(k, s)| s.to_real(dir, k)).collect::<Option<_>>()?;
+        let qs: Vec<PostprocessingFnConfig> = self.qstages.iter().map(|s| s.to_real()).collect();
+        let p = &self.pipe;
+        Some(TrainPipelineConfig {
+            preprocessing: if p.per_source {
+                PreprocessingConfig::PerSource(p.cfgs.iter().map(|c| x_mcfg_to_real(c, &st)).collect())
+            } else {
+                PreprocessingConfig::Global(x_mcfg_to_real(&p.cfgs[0], &st))
+            },
+            task: p.task.to_real(),
+            postprocessing: if p.q_per_source {
+                PostprocessingConfig::PerSource(p.qcfgs.iter().map(|c| x_qcfg_to_real(c, &qs)).collect())
+            } else {
+                PostprocessingConfig::Global(x_qcfg_to_real(&p.qcfgs[0], &qs))
+            },
+        })
+    }
+    fn tags(&self, tags: &mut Vec<String>) {
+        self.pipe.tags(tags);
+        for s in &self.stages {
+            let n = s.name();
+            if !tags.contains(&n) {
+                tags.push(n);
+            }
+        }
+    }
+}
+
+// ---- generators of the stage tables ----
+
+const X_UNITS: &[&str] = &["a", "b", "c", "x", "y", "a", "b", "é", "ä", ".", "²", "中", "e\u{301}", "-"];
+
+fn x_unit(rng: &mut Rng) -> String {
+    rng.pick(X_UNITS).to_string()
+}
+
+/// a character dictionary: 3-grams around the clusters of the sample words, then random ones over the small alphabet
+fn gen_chars(rng: &mut Rng, words: &[String]) -> CharItems {
+    let mut items: CharItems = vec![];
+    let mut push = |rng: &mut Rng, p: String, c: String, n: String, f: usize| {
+        let sep = |rng: &mut Rng| if rng.chance(1, 16) { "  " } else { " " };
+        let k = format!("{p}{}{c}{}{n}", sep(rng), sep(rng));
+        if !items.iter().any(|x: &(String, usize)| x.0 == k) && items.len() < 60 {
+            items.push((k, f));
+        }
+    };
+    for w in words.iter().take(6) {
+        let cs: Vec<String> = split_clusters(w, true).map(|s| s.to_string()).collect();
+        let at = |i: isize| -> String {
+            if i < 0 {
+                "<bow>".into()
+            } else if i as usize >= cs.len() {
+                "<eow>".into()
+            } else {
+                cs[i as usize].clone()
+            }
+        };
+        for i in 0..=cs.len().min(6) as isize {
+            if rng.chance(1, 2) {
+                let (c, f) = (x_unit(rng), rng.range(1, 5));
+                push(rng, at(i - 1), c, at(i), f);
+            }
+            if (i as usize) < cs.len() && rng.chance(1, 2) {
+                let f = rng.range(1, 5);
+                push(rng, at(i - 1), at(i), at(i + 1), f);
+                let (c, f) = (x_unit(rng), rng.range(1, 5));
+                push(rng, at(i - 1), c, at(i + 1), f);
+            }
+        }
+    }
+    for _ in 0..rng.range(4, 24) {
+        let p = if rng.chance(1, 4) { "<bow>".to_string() } else { x_unit(rng) };
+        let n = if rng.chance(1, 4) { "<eow>".to_string() } else { x_unit(rng) };
+        let c = if rng.chance(1, 8) { format!("{}{}", x_unit(rng), x_unit(rng)) } else { x_unit(rng) };
+        let f = rng.range(1, 5);
+        push(rng, p, c, n, f);
+    }
+    match rng.below(24) {
+        0 => items.push((if rng.chance(1, 2) { "a b".to_string() } else { "a b c d".to_string() }, rng.range(1, 5))),
+        1 | 2 => {
+            // the relative-frequency filter: one heavy item puts frequency k at the threshold k / total < 1e-4
+            let small: usize = items.iter().map(|x| x.1).sum();
+            let k = rng.range(1, 5);
+            let heavy = (10_000 * k) as isize + rng.below(5) as isize - 2 - small as isize;
+            if heavy > 0 {
+                items.push(("<bow> x <eow>".into(), heavy as usize));
+            }
+        }
+        3 => {
+            if let Some(x) = items.first_mut() {
+                x.1 = 0;
+            }
+        }
+        _ => {}
+    }
+    if items.is_empty() {
+        items.push(("a b c".into(), 1));
+    }
+    // keys are distinct (a HashMap in the code): of two equal keys the later one is dropped
+    let mut seen: Vec<String> = vec![];
+    items.retain(|(k, _)| {
+        if seen.contains(k) {
+            false
+        } else {
+            seen.push(k.clone());
+            true
+        }
+    });
+    rng.shuffle(&mut items);
+    items
+}
+
+/// misspellings of whole words and of their regex parts
+fn gen_missp(rng: &mut Rng, words: &[String], safe: bool) -> Missp {
+    let mut miss: Missp = vec![];
+    let repl = |rng: &mut Rng| -> String {
+        match rng.below(10) {
+            0 => String::new(),
+            1 => format!("{} {}", x_unit(rng), x_unit(rng)),
+            _ => (0..rng.range(1, 3)).map(|_| x_unit(rng)).collect(),
+        }
+    };
+    let mut add = |rng: &mut Rng, w: String| {
+        if !miss.iter().any(|x| x.0 == w) && miss.len() < 14 {
+            // an empty list of misspellings: random_range(0..0) panics inside the closure
+            let n = if !safe && rng.chance(1, 30) { 0 } else { rng.range(1, 3) };
+            let rs = (0..n).map(|_| repl(rng)).collect();
+            miss.push((w, rs));
+        }
+    };
+    for w in words.iter().take(8) {
+        for (w, parts) in text_utils::text::split_words(w) {
+            if rng.chance(1, 2) {
+                add(rng, w.to_string());
+            }
+            for (p, _) in parts.unwrap_or_default() {
+                if rng.chance(1, 2) {
+                    add(rng, p.to_string());
+                }
+            }
+        }
+    }
+    for u in ["a", "b", "ab", "xy", "c"] {
+        if rng.chance(1, 3) {
+            add(rng, u.to_string());
+        }
+    }
+    miss
+}
+
+fn gen_spell_prob(rng: &mut Rng) -> f64 {
+    match rng.below(8) {
+        0 | 1 | 2 => 1.0,
+        3 => 0.5,
+        4 => 0.9,
+        _ => (1 + rng.below(1 << 20)) as f64 / (1u64 << 20) as f64,
+    }
+}
+
+/// a spelling stage over the words of `text` (`safe`: no configuration that panics)
+fn gen_spell_stage(rng: &mut Rng, target: bool, text: &str, safe: bool) -> StageSpec {
+    let words: Vec<String> = text.split_whitespace().map(|w| w.to_string()).collect();
+    let temp = *rng.pick(&[2.0, 2.0, 1.0, 3.0, 0.7]);
+    let pc = if rng.chance(1, 6) { 0.0 } else { gen_spell_prob(rng) };
+    let art = if rng.chance(1, 10) { 0.0 } else if rng.chance(1, 10) { 1.0 } else if rng.chance(1, 20) { 2.5 } else { gen_spell_prob(rng) };
+    let chars = |rng: &mut Rng| -> Option<CharItems> {
+        let mut c = gen_chars(rng, &words);
+        if safe {
+            c.retain(|(k, _)| k.split_whitespace().count() == 3);
+            c.iter_mut().for_each(|x| x.1 = x.1.max(1));
+            if c.is_empty() {
+                c.push(("a b c".into(), 1));
+            }
+        }
+        Some(c)
+    };
+    let mode = match rng.below(10) {
+        0..=3 => SModeSpec::Art(pc, temp, chars(rng)),
+        4 | 5 => SModeSpec::Real(gen_missp(rng, &words, safe)),
+        6 | 7 => {
+            let c = chars(rng);
+            SModeSpec::Mixed(art, pc, temp, c, gen_missp(rng, &words, safe))
+        }
+        8 => SModeSpec::Art(pc, temp, None),
+        _ => SModeSpec::Mixed(art, pc, temp, None, gen_missp(rng, &words, safe)),
+    };
+    let prob = if !safe && rng.chance(1, 40) { 0.0 } else if rng.chance(1, 30) { 1.5 } else { gen_spell_prob(rng) };
+    StageSpec::Spell(target, prob, rng.chance(1, 2), mode)
+}
+
+const ROLE_TEMPLATES: &[&str] = &[
+    "<|user|>\n{text}\n\n",
+    "User: {text}\n",
+    "{text}",
+    "Bot: {text}",
+    "no pattern",
+    "{text}{text}",
+    "a{text}b{text}c",
+    "{text",
+    "{{text}}",
+    "é {text} \u{301}",
+    "",
+];
+
+fn gen_chat_stage(rng: &mut Rng, target: bool) -> StageSpec {
+    let mut roles: Vec<(String, String)> = vec![];
+    for r in ["user", "assistant", "system", "bot", ""] {
+        if rng.chance(2, 3) {
+            roles.push((r.to_string(), rng.pick(ROLE_TEMPLATES).to_string()));
+        }
+    }
+    let start = match rng.below(3) {
+        0 => None,
+        1 => Some("<start>".to_string()),
+        _ => Some("".to_string()),
+    };
+    let end = match rng.below(3) {
+        0 => None,
+        1 => Some("<|assistant|>\n".to_string()),
+        _ => Some("<end>".to_string()),
+    };
+    StageSpec::Chat(target, start, roles, end)
+}
+
+/// the text of a chat: a json array of messages, in several writers' styles and with the ways serde refuses one
+fn gen_chat_text(rng: &mut Rng) -> String {
+    let q = |s: &str| serde_json::to_string(s).unwrap();
+    let n = rng.below(4);
+    let mut msgs: Vec<String> = vec![];
+    for k in 0..n {
+        let role = *rng.pick(&["user", "user", "assistant", "system", "bot", "", "nobody"]);
+        let text = match rng.below(6) {
+            0 => "{text}".to_string(),
+            1 => "a {text} b".to_string(),
+            _ => gen_text(rng, 6),
+        };
+        let last = k + 1 == n;
+        let partial = if last { rng.chance(1, 3) } else { rng.chance(1, 12) };
+        let m = match rng.below(14) {
+            0 | 1 | 2 => format!("{{\"role\": {}, \"text\": {}}}", q(role), q(&text)),
+            3 | 4 | 5 => format!("{{\"text\":{},\"role\":{},\"partial\":{}}}", q(&text), q(role), partial),
+            6 => format!("{{\"text\": {}, \"id\": [1, {{\"text\": 3}}, null], \"role\": {}, \"partial\": {}, \"x\": \"y\"}}", q(&text), q(role), partial),
+            7 => format!("[{}, {}]", q(&text), q(role)),
+            8 => format!(" [ {} , {} , {} ] ", q(&text), q(role), partial),
+            9 => format!("{{\"te\\u0078t\": {}, \"role\": {}}}", q(&text), q(role)),
+            10 => format!("{{\"role\": {}, \"text\": {}, \"partial\": {}}}", py_string(role), py_string(&text), partial),
+            _ => rng
+                .pick(&[
+                    "{\"text\": \"a\"}",
+                    "{\"role\": \"user\"}",
+                    "{\"text\": \"a\", \"role\": \"user\", \"text\": \"b\"}",
+                    "{\"text\": \"a\", \"role\": \"user\", \"partial\": true, \"partial\": true}",
+                    "{\"text\": 1, \"role\": \"user\"}",
+                    "{\"text\": \"a\", \"role\": null}",
+                    "{\"text\": \"a\", \"role\": \"user\", \"partial\": 1}",
+                    "{\"text\": \"a\", \"role\": \"user\", \"partial\": null}",
+                    "[\"a\", \"user\", true, 1]",
+                    "[\"a\"]",
+                    "[]",
+                    "[\"a\", \"user\", \"true\"]",
+                    "\"user\"",
+                    "null",
+                    "{\"text\": \"a\", \"role\": \"user\",}",
+                    "{\"Text\": \"a\", \"role\": \"user\", \"text\": \"b\"}",
+                ])
+                .to_string(),
+        };
+        msgs.push(m);
+    }
+    match rng.below(16) {
+        0 => format!("[{}] x", msgs.join(",")),
+        1 => format!("[{},]", msgs.join(",")),
+        2 => format!("{{\"messages\": [{}]}}", msgs.join(",")),
+        3 => "".to_string(),
+        4 => gen_text(rng, 5),
+        5 => format!(" \n[ {} ]\t", msgs.join(" ,\n")),
+        _ => format!("[{}]", msgs.join(", ")),
+    }
+}
+
+fn gen_mask(rng: &mut Rng, safe: bool) -> MaskSpec {
+    let tok = gen_tok(rng);
+    let token = if !safe && rng.chance(1, 12) {
+        rng.pick(&["<mask>", "", "ab", "é"]).to_string()
+    } else {
+        rng.pick(&["<unk>", "<unk>", "<pad>", "#", "<eos>", "\u{0}"]).to_string()
+    };
+    let p = match rng.below(16) {
+        0 => 1.0,
+        1 => 0.0,
+        2 => 2.0 / 3.0,
+        3 => f64::from_bits((2.0f64 / 3.0).to_bits() - 1),
+        4 => 0.5,
+        5 => 0.15,
+        6 => 0.4,
+        7 => 1e-9,
+        8 => 3e-5,
+        9 if !safe => *rng.pick(&[1.5, -0.25, f64::NAN, f64::INFINITY]),
+        10 => 0.9,
+        11 => 0.01,
+        _ => (1 + rng.below(1 << 16)) as f64 / (1u64 << 16) as f64,
+    };
+    let num_p = match rng.below(8) {
+        0 => 1.0,
+        1 => 0.0,
+        2 => f64::INFINITY,
+        3 => 0.5,
+        4 => 5e-324,
+        _ => (1 + rng.below(1 << 10)) as f64 / (1u64 << 10) as f64,
+    };
+    let min = if !safe && rng.chance(1, 20) { 0 } else { *rng.pick(&[1, 1, 1, 2, 3, 5]) };
+    MaskSpec { tok, p, min, num_p, token }
+}
+
+/// mask script: the TokenMasking function alone on a synthetic item with `n` token ids
+fn mask_gen(rng: &mut Rng) -> Val {
+    let mut m = gen_mask(rng, false);
+    // this line is about the sampler: probabilities that mask often
+    if rng.chance(1, 2) {
+        m.num_p = f64::INFINITY;
+        m.min = 1;
+    }
+    let n = match rng.below(10) {
+        0 => rng.below(4),
+        1 | 2 => rng.range(4, 12),
+        3 => 200,
+        _ => rng.range(12, 80),
+    };
+    let ids: Vec<Val> = (0..n).map(|i| Val::u(1000 + i)).collect();
+    let seed = if rng.chance(1, 6) { rng.next_u64() } else { rng.below(100_000) as u64 };
+    Val::L(vec![Val::I(-7), m.to_val(), Val::u(rng.below(4)), Val::L(ids), hl(seed)])
+}
+
+fn mask_run(input: &Val) -> Option<(Val, Vec<String>)> {
+    use text_utils::data::TrainTaskInput as T;
+    let l = input.as_l()?;
+    if l.len() != 5 {
+        return None;
+    }
+    let m = MaskSpec::from_val(&l[1])?;
+    let kind = l[2].as_usize()?;
+    let ids: Vec<u32> = l[3].as_l()?.iter().map(|x| x.as_usize().and_then(|u| u32::try_from(u).ok())).collect::<Option<_>>()?;
+    if ids.len() > 2000 || kind > 3 {
+        return None;
+    }
+    let seed = un_hl(&l[4])?;
+    let mut tags = vec!["mask".to_string()];
+    if m.p >= 2.0 / 3.0 {
+        tags.push("geo-trivial".into());
+    } else if m.p > 0.0 {
+        tags.push("geo-bf".into());
+    }
+    let real = m.to_real();
+    let f = match std::panic::catch_unwind(move || {
+        text_utils::data::postprocessing::postprocessing(real, std::sync::Arc::new(std::sync::atomic::AtomicUsize::new(512)))
+    }) {
+        Ok(f) => f,
+        Err(_) => {
+            tags.push("rejected".into());
+            return Some((Val::L(vec![Val::I(0)]), tags));
+        }
+    };
+    let once = || -> Vec<Val> {
+        let input = match kind {
+            0 => T::Classification { token_ids: ids.clone(), pad_token_id: 0, label: 0 },
+            1 => T::SequenceClassification { token_ids: ids.clone(), pad_token_id: 0, labels: vec![] },
+            2 => T::Generation { token_ids: ids.clone(), pad_token_id: 0, labels: vec![] },
+            _ => T::ConditionalGeneration { token_ids: ids.clone(), pad_token_id: 0, target_token_ids: vec![], target_pad_token_id: 0, labels: vec![] },
+        };
+        let item = TrainItem::new(text_utils::data::TrainData::new(String::new(), None), input);
+        let info = TextDataInfo { seed, ..Default::default() };
+        match std::panic::catch_unwind(std::panic::AssertUnwindSafe(|| f(item, info))) {
+            Err(_) => vec![Val::I(-777)],
+            Ok(Err(_)) => vec![Val::I(2)],
+            Ok(Ok((it, _))) => {
+                let out = match &it.input {
+                    T::Classification { token_ids, .. }
+                    | T::SequenceClassification { token_ids, .. }
+                    | T::Generation { token_ids, .. }
+                    | T::ConditionalGeneration { token_ids, .. } => ids_u32(token_ids),
+                };
+                vec![Val::I(1), out]
+            }
+        }
+    };
+    let f2 = &once;
+    let out = {
+        let first = f2();
+        let second = f2();
+        let rep = first == second;
+        let mut o = first;
+        match o[0] {
+            Val::I(1) => {
+                let changed = o[1].as_l().map(|l| l.iter().zip(ids.iter()).filter(|(a, b)| a.as_usize() != Some(**b as usize)).count()).unwrap_or(0);
+                if changed > 0 {
+                    tags.push("masked".into());
+                    tags.push("nt".into());
+                }
+                o.push(Val::b(rep));
+            }
+            Val::I(2) => o.push(Val::b(rep)),
+            _ => {
+                tags.push("panic".into());
+                if !rep {
+                    o = vec![Val::I(-779)];
+                }
+            }
+        }
+        Val::L(o)
+    };
+    Some((out, tags))
+}
+
+/// the item's preprocessing extended by stages of the table: the configuration, the tables, and the texts (a chat stage on
+/// the input needs chat json as the input text)
+fn add_stages(rng: &mut Rng, spec: &mut PipeSpec, input: &mut String, target: &str, safe: bool) -> (Vec<StageSpec>, Vec<MaskSpec>) {
+    let mut stages: Vec<StageSpec> = vec![];
+    let mut qstages: Vec<MaskSpec> = vec![];
+    // the older lines' packed ids do not exist here: replace them by table entries
+    fn lift(c: &MCfg, stages: &mut Vec<StageSpec>) -> MCfg {
+        match c {
+            MCfg::Chain(l) => MCfg::Chain(l.iter().map(|c| lift(c, stages)).collect()),
+            MCfg::Switch(l, ps) => MCfg::Switch(l.iter().map(|c| lift(c, stages)).collect(), ps.clone()),
+            MCfg::JsonDecode(p) => {
+                stages.push(StageSpec::Json(*p));
+                MCfg::Stage(stages.len() - 1)
+            }
+            MCfg::Spell(p, fd, pw, pc) => {
+                stages.push(StageSpec::Spell(*p, SPELL_PW[*pw as usize], *fd, SModeSpec::Art(SPELL_PC[*pc as usize], 2.0, None)));
+                MCfg::Stage(stages.len() - 1)
+            }
+            c => c.clone(),
+        }
+    }
+    for c in spec.cfgs.iter_mut() {
+        *c = lift(c, &mut stages);
+    }
+    if stages.len() > 2 {
+        stages.clear();
+        for c in spec.cfgs.iter_mut() {
+            *c = MCfg::None;
+        }
+    }
+    let kind = rng.below(10);
+    let n0 = stages.len();
+    match kind {
+        0..=5 => {
+            let tg = rng.chance(1, 5);
+            let st = gen_spell_stage(rng, tg, if tg { target } else { input.as_str() }, safe);
+            stages.push(st);
+        }
+        6 | 7 => {
+            stages.push(gen_chat_stage(rng, false));
+            if !rng.chance(1, 10) {
+                *input = gen_chat_text(rng);
+            }
+        }
+        8 => {
+            stages.push(StageSpec::Json(false));
+            if !rng.chance(1, 6) {
+                *input = serde_json::to_string(input).unwrap();
+            }
+        }
+        _ => {}
+    }
+    if stages.len() > n0 {
+        let k = stages.len() - 1;
+        let first = matches!(stages[k], StageSpec::Chat(..) | StageSpec::Json(_));
+        for c in spec.cfgs.iter_mut() {
+            let c0 = c.clone();
+            *c = if first {
+                // decoding stages come first (the other stages then work on the decoded text)
+                MCfg::Chain(vec![MCfg::Stage(k), c0])
+            } else {
+                // what was there stays (it may set the marks the postprocessing reads)
+                let sw = MCfg::Switch(vec![MCfg::Stage(k), MCfg::None], vec![0.5, 0.5]);
+                match rng.below(4) {
+                    0 => MCfg::Chain(vec![c0, MCfg::Stage(k)]),
+                    1 => MCfg::Chain(vec![MCfg::Stage(k), c0]),
+                    2 => MCfg::Chain(vec![sw, c0]),
+                    _ => MCfg::Chain(vec![c0, sw]),
+                }
+            };
+        }
+    }
+    // TokenMasking: in front of / behind what is there, or as an alternative of a switch
+    if rng.chance(3, 5) {
+        let mut m = gen_mask(rng, safe);
+        if safe {
+            // the loader lines exclude panicking calls: the masking tokenizer is the task's own where the task has one
+            // (len - prefix - suffix cannot underflow on an unclipped sequence)
+            match &spec.task {
+                TaskSpec::Wsc(_, t) | TaskSpec::Class(t, _, _) | TaskSpec::Cond(t, _, _, _) => m.tok = t.clone(),
+                TaskSpec::Gen(_, t, _, _) => {
+                    // the generation task drops the last token id: one suffix token less, or an empty text underflows
+                    m.tok = t.clone();
+                    m.tok.suffix.pop();
+                }
+            }
+        }
+        qstages.push(m);
+        for q in spec.qcfgs.iter_mut() {
+            let q0 = q.clone();
+            *q = match rng.below(4) {
+                0 => QCfg::Mask(0),
+                1 => QCfg::Chain(vec![QCfg::Mask(0), q0]),
+                2 if !safe => QCfg::Chain(vec![q0, QCfg::Mask(0)]),
+                2 => QCfg::Chain(vec![QCfg::Mask(0), QCfg::Clip]),
+                _ => QCfg::Switch(vec![QCfg::Mask(0), q0], vec![0.5, 0.5]),
+            };
+        }
+    }
+    (stages, qstages)
+}
+
+fn xitem_gen(rng: &mut Rng) -> Val {
+    let mut spec = gen_pipe_spec(rng, 2, false);
+    let (mut input, target) = gen_item_texts(rng, &spec.task);
+    let (stages, qstages) = add_stages(rng, &mut spec, &mut input, &target, false);
+    let x = XPipe { pipe: spec, stages, qstages };
+    let seed = if rng.chance(1, 6) { rng.next_u64() } else { rng.below(5000) as u64 };
+    let mut marks = HashMap::new();
+    if rng.chance(1, 2) {
+        marks.insert("k".to_string(), rng.pick(&["old", "v", "w", "vv", "", "wv"]).to_string());
+    }
+    let [p, t, q, m] = x.pipe.vals();
+    let [st, qs] = x.table_vals();
+    Val::L(vec![Val::I(-5), p, t, q, m, Val::str(&input), Val::str(&target), hl(seed), Val::u(rng.below(3)), marks_val(&marks), st, qs])
+}
+
+impl C08 {
+    fn xitem_run(&self, input: &Val) -> Option<(Val, Vec<String>)> {
+        let l = input.as_l()?;
+        if l.len() != 12 {
+            return None;
+        }
+        let x = XPipe::from_vals(&l[1], &l[2], &l[3], &l[4], &l[10], &l[11])?;
+        let inp = l[5].to_string_lossy()?;
+        let tgt = l[6].to_string_lossy()?;
+        if inp.chars().count() > 600 || tgt.chars().count() > 400 {
+            return None;
+        }
+        let info = TextDataInfo { seed: un_hl(&l[7])?, file_idx: l[8].as_usize()?, marks: val_marks(&l[9])? };
+        let mut tags = vec!["xitem".to_string()];
+        x.tags(&mut tags);
+        let real = x.to_real(&self.dir)?;
+        let maxlen = x.pipe.maxlen;
+        let pipe = match std::panic::catch_unwind(move || train_pipeline(real, maxlen)) {
+            Ok(Ok((pipe, _))) => pipe,
+            _ => {
+                tags.push("rejected".into());
+                return Some((Val::L(vec![Val::I(0)]), tags));
+            }
+        };
+        let once = || -> Vec<Val> {
+            let data = text_utils::data::TrainData::new(inp.clone(), Some(tgt.clone()));
+            let info = info.clone();
+            let pipe = pipe.clone();
+            match std::panic::catch_unwind(std::panic::AssertUnwindSafe(move || pipe((data, info)))) {
+                Err(_) => vec![Val::I(-777)],
+                Ok(Err(_)) => vec![Val::I(2)],
+                Ok(Ok(it)) => vec![Val::I(1), Val::str(it.data.verif_input()), Val::str(it.data.verif_target()), tinput_val(&it.input)],
+            }
+        };
+        let first = once();
+        let second = once();
+        let third = std::thread::scope(|s| s.spawn(|| once()).join().ok());
+        let rep = second == first && third.as_ref() == Some(&first);
+        let mut out = first;
+        match out[0] {
+            Val::I(1) => {
+                tags.push("ok".into());
+                if out[1].to_string_lossy().as_deref() != Some(inp.as_str()) || !x.qstages.is_empty() {
+                    tags.push("nt".into());
+                }
+                out.push(Val::b(rep));
+            }
+            Val::I(2) => {
+                tags.push("err".into());
+                out.push(Val::b(rep));
+            }
+            _ => {
+                tags.push("panic".into());
+                if !rep {
+                    out = vec![Val::I(-779)];
+                }
+            }
+        }
+        Some((Val::L(out), tags))
+    }
+}
+
+fn xbytes_gen(rng: &mut Rng) -> Val {
+    let nfiles = rng.range(1, 3);
+    let strategy = rng.below(3) as i64;
+    let mut pipe = gen_pipe_spec(rng, nfiles, true);
+    // the texts: one sample decides the stage (a chat / json stage needs decodable inputs), the lines follow it
+    let (mut sample_in, sample_tg) = gen_item_texts(rng, &pipe.task);
+    let before = sample_in.clone();
+    let (stages, qstages) = add_stages(rng, &mut pipe, &mut sample_in, &sample_tg, true);
+    let chat_in = stages.iter().any(|s| matches!(s, StageSpec::Chat(false, ..)));
+    let json_in = !chat_in && stages.iter().any(|s| matches!(s, StageSpec::Json(false))) && sample_in != before;
+    let lines: Vec<Vec<Option<(String, String)>>> = (0..nfiles)
+        .map(|fi| {
+            let n = if strategy == 2 && !rng.chance(1, 30) { rng.range(1, 8) } else { rng.range(0, 8) };
+            (0..n)
+                .map(|li| {
+                    if rng.chance(1, 9) {
+                        return None;
+                    }
+                    if fi == 0 && li == 0 {
+                        return Some((sample_in.clone(), sample_tg.clone()));
+                    }
+                    let (mut i, t) = gen_item_texts(rng, &pipe.task);
+                    if chat_in && !rng.chance(1, 10) {
+                        i = gen_chat_text(rng);
+                    } else if json_in && !rng.chance(1, 6) {
+                        i = serde_json::to_string(&i).unwrap();
+                    }
+                    Some((i, t))
+                })
+                .collect()
+        })
+        .collect();
+    let total: usize = lines.iter().map(|f| f.len()).sum();
+    let world = rng.range(1, 4);
+    let lim: i64 = if rng.chance(1, 3) { -1 } else { rng.range(0, total + 2) as i64 };
+    let skip = if rng.chance(1, 2) { 0 } else { rng.range(0, total / 2 + 1) };
+    let ff = if rng.chance(1, 3) { 0 } else { rng.range(0, total / 2 + 1) };
+    let files: Vec<Vec<u8>> = lines.iter().map(|f| gen_bfile(rng, f)).collect();
+    let b = BSpec {
+        files,
+        strategy,
+        seed: if rng.chance(1, 8) { rng.next_u64() >> 24 } else { rng.below(1000) as u64 },
+        epoch: rng.below(3),
+        pipe,
+        lim,
+        skip,
+        ff,
+        rank: rng.below(world),
+        world,
+        sort: rng.chance(1, 3),
+        shuffle: rng.chance(1, 2),
+        prefetch: rng.below(4),
+        blim: if rng.chance(1, 2) { rng.range(0, 6) } else { rng.range(20, 400) },
+        ty: rng.below(2) as i64,
+        threads: rng.below(5) as u8,
+        buffer: rng.below(5),
+        threads2: rng.below(5) as u8,
+        buffer2: rng.below(5),
+    };
+    let x = XPipe { pipe: b.pipe.clone(), stages, qstages };
+    let mut v = match b.to_val() {
+        Val::L(l) => l,
+        _ => unreachable!(),
+    };
+    v[0] = Val::I(-6);
+    let [st, qs] = x.table_vals();
+    v.push(st);
+    v.push(qs);
+    Val::L(v)
+}
+
+impl C08 {
+    /// the byte loader line with stage tables: `bytes_run` with the pipeline built from the tables
+    fn xbytes_run(&self, input: &Val) -> Option<(Val, Vec<String>)> {
+        let l = input.as_l()?;
+        if l.len() != 25 {
+            return None;
+        }
+        let x = XPipe::from_vals(&l[5], &l[6], &l[7], &l[8], &l[23], &l[24])?;
+        // the loader part is parsed by BSpec with a pipeline that has no references
+        let mut plain: Vec<Val> = l[..23].to_vec();
+        plain[0] = Val::I(-3);
+        plain[5] = Val::L(vec![Val::I(0), Val::L(vec![Val::I(0)])]);
+        plain[7] = Val::L(vec![Val::I(0), Val::L(vec![Val::I(0)])]);
+        let s = BSpec::from_val(&Val::L(plain))?;
+        std::fs::create_dir_all(&self.dir).ok()?;
+        let mut paths = vec![];
+        for (fi, f) in s.files.iter().enumerate() {
+            let p = self.dir.join(format!("x{fi}.jsonl"));
+            std::fs::write(&p, f).ok()?;
+            paths.push(p.to_string_lossy().to_string());
+        }
+        let mut tags = vec!["xbytes".to_string(), format!("strategy{}", s.strategy), format!("world{}", s.world)];
+        x.tags(&mut tags);
+        let real = x.to_real(&self.dir)?;
+        let maxlen = x.pipe.maxlen;
+        let real2 = real.clone();
+        let pipe = std::panic::catch_unwind(move || train_pipeline(real2, maxlen));
+        reset_panic_hook();
+        let mut table: Vec<Val> = vec![];
+        let mut n_err_lines = 0usize;
+        if let Ok(Ok((pipe, _))) = &pipe {
+            let seed = s.seed + s.epoch as u64;
+            let gens = paths.iter().map(train_data_generator_from_jsonl).collect::<anyhow::Result<Vec<_>>>().ok()?;
+            if let Ok(gen) = MultiTrainDataGenerator::new(gens, strategy_of(s.strategy), Some(seed)) {
+                for (pos, (data, file_idx)) in gen.enumerate() {
+                    match data {
+                        Ok(d) => {
+                            let info = TextDataInfo { file_idx, seed: seed + pos as u64, ..Default::default() };
+                            let pipe = pipe.clone();
+                            match std::panic::catch_unwind(std::panic::AssertUnwindSafe(move || pipe((d, info)))) {
+                                Err(_) => return None,
+                                Ok(Ok(it)) => table.push(titem_val(&it)),
+                                Ok(Err(_)) => (),
+                            }
+                        }
+                        Err(_) => n_err_lines += 1,
+                    }
+                }
+            }
+        }
+        let s2 = s.clone();
+        let out = with_timeout(20_000, move || {
+            let s = &s2;
+            let run = |threads: u8, buffer: usize| -> Result<(Option<usize>, Vec<Vec<Val>>, Vec<String>), ()> {
+                let args = TrainLoaderArgs {
+                    files: paths.clone(),
+                    pipeline: real.clone(),
+                    strategy: strategy_of(s.strategy),
+                    num_threads: threads,
+                    buffer_size: buffer,
+                    batch_limit: s.blim,
+                    batch_limit_type: if s.ty == 0 { BatchLimitType::BatchSize } else { BatchLimitType::PaddedItemSize },
+                    max_length: maxlen,
+                    shuffle: s.shuffle,
+                    prefetch_factor: s.prefetch,
+                    sort: s.sort,
+                    seed: Some(s.seed),
+                    skip: s.skip,
+                    limit: if s.lim < 0 { None } else { Some(s.lim as usize) },
+                    distributed: Some((s.rank, s.world)),
+                    epoch: s.epoch,
+                    fast_forward: s.ff,
+                };
+                let r = std::panic::catch_unwind(std::panic::AssertUnwindSafe(|| train_loader_batches(args, None)));
+                reset_panic_hook();
+                let (min_items, batches) = match r {
+                    Ok(Ok(x)) => x,
+                    _ => return Err(()),
+                };
+                let mut bs = vec![];
+                let mut tensors = vec![];
+                for (items, t) in batches {
+                    bs.push(items.iter().map(titem_val).collect::<Vec<Val>>());
+                    tensors.push(format!("{:?}", t));
+                }
+                Ok((min_items, bs, tensors))
+            };
+            let a = run(s.threads, s.buffer);
+            let b = run(s.threads2, s.buffer2);
+            match (a, b) {
+                (Err(()), Err(())) => Val::L(vec![Val::I(0)]),
+                (Ok(a), Ok(b)) => {
+                    let same = a == b;
+                    let table_ok = a.1.iter().all(|b| b.iter().all(|it| table.contains(it)));
+                    Val::L(vec![Val::I(1), Val::u(a.0.unwrap_or(UNKNOWN_ITEM)), Val::L(a.1.into_iter().map(Val::L).collect()), Val::b(same), Val::b(table_ok)])
+                }
+                _ => Val::L(vec![Val::I(-779)]),
+            }
+        });
+        let n_items: usize =
+            out.nth(2).and_then(|v| v.as_l()).map(|bs| bs.iter().map(|b| b.as_l().map(|l| l.len()).unwrap_or(0)).sum()).unwrap_or(0);
+        if s.threads > 0 || s.threads2 > 0 {
+            tags.push("threaded".into());
+        }
+        if n_err_lines > 0 {
+            tags.push("errlines".into());
+        }
+        if out.nth(0).and_then(|v| v.as_i()) == Some(0) {
+            tags.push("rejected".into());
+        }
+        if n_items >= 2 && (s.threads > 0 || s.threads2 > 0) {
+            tags.push("nt".into());
+        }
+        Some((out, tags))
+    }
+}
+
 impl Prop for C08 {
     fn gen(&mut self, rng: &mut Rng, _tier: Tier, i: usize, _n: usize) -> Val {
         // one scenario with an oracle table in ten cases; the others are cases over modelled pipelines
@@ -2466,7 +3647,10 @@ impl Prop for C08 {
             0 => (),
             1 => return exact_gen(rng),
             2 | 3 => return bytes_gen(rng),
-            4 | 5 => return item_gen(rng),
+            4 => return item_gen(rng),
+            5 => return xitem_gen(rng),
+            6 => return xbytes_gen(rng),
+            7 => return mask_gen(rng),
             _ => return direct_gen(rng),
         }
         let nfiles = rng.range(1, 3);
@@ -2534,7 +3718,7 @@ impl Prop for C08 {
 
     fn canon(&mut self, input: &Val) -> Option<Val> {
         let l = input.as_l()?;
-        if matches!(l.first().and_then(|k| k.as_i()), Some(-1) | Some(-2) | Some(-3) | Some(-4)) {
+        if matches!(l.first().and_then(|k| k.as_i()), Some(-1) | Some(-2) | Some(-3) | Some(-4) | Some(-5) | Some(-6) | Some(-7)) {
             return Some(input.clone());
         }
         if l.len() != 11 {
@@ -2572,6 +3756,15 @@ impl Prop for C08 {
         }
         if l.first().and_then(|k| k.as_i()) == Some(-4) {
             return item_run(input);
+        }
+        if l.first().and_then(|k| k.as_i()) == Some(-5) {
+            return self.xitem_run(input);
+        }
+        if l.first().and_then(|k| k.as_i()) == Some(-6) {
+            return self.xbytes_run(input);
+        }
+        if l.first().and_then(|k| k.as_i()) == Some(-7) {
+            return mask_run(input);
         }
         if l.len() != 11 {
             return None;
